@@ -12,7 +12,7 @@ from vf.fixtures import CompA, CompB, CompC, CompF, check, sized_lists, wone_of
 
 PROPERTY = "C04"
 LEVEL = "fault_enumeration"
-BUDGET = {"quick": 1200, "thorough": 4000}
+BUDGET = {"quick": 2000, "thorough": 6000}
 RULE = ("One environment (plain, continuous SpaceWorld, DiscreteWorld, LineWorld, GridWorld; extents 0 or >= 1 per axis, continuous extents also fractional below 1, "
         "non-cubic), 7 agent OBJECTS over 4 ids (colliding ids) with fixed component sets; histories (1-30 ops) of add(obj[, "
         "pos in range / on the far boundary / out of bounds on a chosen positive axis and side]), remove(id present/unknown), "
@@ -76,15 +76,27 @@ def run_case(case):
     model, env, ext, unit = build(case)
     kind = case["env"]["kind"]
     spatial = kind != "plain"
+    decoy = None
+    if case.get("decoy"):
+        # a second model with an environment of the same kind, alive throughout, holding agents with the SAME identifiers:
+        # environments are independent of each other
+        dmodel, denv, _, _ = build(case)
+        decoy = [Agent(f"a{k}", dmodel) for k in range(3)]
+        for d in decoy:
+            d.add_component(CompA(d, dmodel))
+            denv.add_agent(d, *((0, 0, 0) if spatial else ()))
     NOBJ = max(1, min(int(case.get("nobj", 7)), 200))           # agent objects (large cases cross size thresholds)
     NIDS = max(1, min(int(case.get("nids", 4)), 190))           # distinct identifiers among them
     masks = (list(case.get("objs", [])) + [1] * NOBJ)[:NOBJ]
     objs = []
+    owners = (list(case.get("owners", [])) + [0] * NOBJ)[:NOBJ]   # 0: built for the environment's model, 1: for no model, 2: for another model
+    other_model = Model() if 2 in [int(o) % 3 for o in owners] else None
     for k, mask in enumerate(masks):
-        a = Agent(f"a{k % NIDS}", model)
+        owner = {0: model, 1: None, 2: other_model}[int(owners[k]) % 3]
+        a = Agent(f"a{k % NIDS}", owner)
         for ti, t in enumerate(TYPES):
             if int(mask) >> ti & 1:
-                a.add_component(t(a, model))
+                a.add_component(t(a, owner))
         objs.append(a)
     spare = [Agent(f"a{k}", model) for k in range(NIDS)]      # fresh objects for injected duplicate adds
     for s in spare:
@@ -276,6 +288,12 @@ def run_case(case):
             compare(tag + " (after fault injection)")
     if NOBJ > 64:
         labels.add("population>64")
+    if decoy is not None:
+        labels.add("second-environment-alive")
+        got = ([a.id for a in denv], [id(c.agent) for c in dmodel.systems[CompA] or []])
+        if got != ([d.id for d in decoy], [id(d) for d in decoy]) or any(denv.get_agent(d.id) is not d for d in decoy):
+            raise Violation("other-environment-disturbed", f"a second environment of the same kind held a0..a2 with one CompA each throughout; it now "
+                                                           f"holds {got[0]} and its model lists {len(got[1])} CompA")
     return {"nontrivial": stats["rejected_with_2"] and stats["middle_removal"], "labels": sorted(labels) + [f"env-{kind}"]}
 
 
@@ -320,4 +338,6 @@ def strategy(tier):
 
 def _small(env, op):
     return st.fixed_dictionaries({"env": env, "objs": st.lists(st.integers(0, 7), min_size=7, max_size=7),
+                                  "decoy": st.sampled_from([False, False, False, True]),
+                                  "owners": wone_of(st.just([]), st.just([]), st.lists(st.sampled_from([0, 0, 1, 2]), min_size=7, max_size=7)),
                                   "ops": wone_of(sized_lists(op, 1, 30), sized_lists(op, 6, 20))})
